@@ -13,7 +13,7 @@ RULE = ("Outer dimension enumerated exhaustively: every shipped model and every 
         "relational break-points and ties frequent), flags one-hot per limiter, dae_t in {-1,0,0.5,3}, (0,1) config "
         "flags flipped. The generated functions are executed through the model's own call path "
         "(name lookup -> pycode function -> positional binding) and compared slot by slot with a direct Python "
-        "evaluation of the declared string. Non-trivial = a (model, string-kind, point) evaluation in which "
+        "evaluation of the declared string. The order of the generated initialisation sequence is judged for every model: each variable once, and after every variable its declared initialiser's value depends on (dependencies found by perturbing one variable at a time in the independent evaluator, plus the model's manually declared ones). Non-trivial = a (model, string-kind, point) evaluation in which "
         "the string has a finite value in the oracle and depends on >= 1 generated input; distinct by "
         "(model, string name, kind).")
 ASSUMPTIONS = [
@@ -507,10 +507,102 @@ def camp_stale(ctx):
     drive(ctx, stale_cases(names, cands), body, 3 if ctx.tier == 'quick' else 40, name='stale', shrink=False)
 
 
+# ---------------------------------------------------------------------------------------------
+# (d) order of the generated initialisation sequence
+# ---------------------------------------------------------------------------------------------
+
+def _value_dependencies(text, allv, subs):
+    """Variables the *value* of a declared string depends on: the string is evaluated by the independent evaluator at two
+    generic points; a variable is a dependency when changing it alone changes the value (a variable that only appears
+    textually, as in 'v + vf0 / K - v', is not)."""
+    import zlib
+    try:
+        names = pyeval.names_in(text)
+    except SyntaxError:
+        return set()
+    for n in list(names):
+        if n in subs:
+            try:
+                names |= pyeval.names_in(subs[n])
+            except SyntaxError:
+                pass
+    cands = [n for n in names if n in allv]
+    out = set()
+    for salt in (0, 1):
+        base = {n: 0.55 + ((zlib.crc32(('%s:%d' % (n, salt)).encode()) % 9973) / 9973.0) for n in names if n not in pyeval.FUNCS or n in allv}
+        base.setdefault('dae_t', 0.0)
+        try:
+            f0 = np.asarray(pyeval.evaluate(text, pyeval.Namespace(dict(base), subs=subs)), dtype=complex)
+        except Exception:
+            return set(cands)        # cannot be evaluated generically: fall back to the textual (conservative) reading
+        for n in cands:
+            pert = dict(base)
+            pert[n] = base[n] * 1.37 + 0.21
+            try:
+                f1 = np.asarray(pyeval.evaluate(text, pyeval.Namespace(pert, subs=subs)), dtype=complex)
+            except Exception:
+                out.add(n)
+                continue
+            if not (np.all(np.isfinite(f0)) and np.all(np.isfinite(f1))):
+                continue
+            if np.any(np.abs(f1 - f0) > 1e-12 * (1 + np.abs(f0))):
+                out.add(n)
+    return out
+
+
+def camp_init_order(ctx):
+    """Every variable is initialised exactly once, and only after every variable its declared initialiser (explicit string,
+    iterative string, or the model's manually declared dependencies) refers to - variables of one iterative group excepted.
+    Exhaustive over the shipped models; the sequence judged is the one stored with the generated code that is loaded."""
+    import re
+    ss = fab.bare_system()
+    ident = re.compile(r'[A-Za-z_][A-Za-z_0-9]*')
+    for m in model_names():
+        mdl = ss.models[m]
+        seq = getattr(mdl.calls, 'init_seq', None)
+        if seq is None:
+            continue
+        ctx.evaluated()
+        ctx.current_case = dict(model=m, kind='init_order')
+        allv = mdl.cache.all_vars
+        subs = {n: sv.v_str for n, sv in mdl.services_subs.items()} if hasattr(mdl, 'services_subs') else {}
+        pos, count = {}, {}
+        for k, item in enumerate(seq):
+            for name in (item if isinstance(item, list) else [item]):
+                pos[name] = k
+                count[name] = count.get(name, 0) + 1
+        wrong = [n for n in allv if count.get(n, 0) != 1]
+        if wrong:
+            ctx.fail('variable_not_initialised_exactly_once', dict(model=m, variables=wrong[:6], counts=[count.get(n, 0) for n in wrong[:6]]),
+                     sig=dict(kind='init_order'))
+        ndeps = 0
+        for name, var in allv.items():
+            deps = set()
+            for text in (var.v_str, var.v_iter):
+                if isinstance(text, str):
+                    deps.update(_value_dependencies(text, allv, subs))
+            if getattr(var, 'deps', None):
+                deps.update(d for d in var.deps if d in allv)
+            deps.discard(name)
+            for d in sorted(deps):
+                ndeps += 1
+                if pos.get(d, -1) > pos.get(name, -1):
+                    ctx.fail('initialised_before_its_dependency',
+                             dict(model=m, variable=name, depends_on=d, position=pos.get(name), dependency_position=pos.get(d),
+                                  declared_manually=bool(getattr(var, 'deps', None) and d in var.deps)),
+                             sig=dict(kind='init_order', manual=bool(getattr(var, 'deps', None) and d in var.deps)))
+        ctx.count('init_order:dependencies_checked', ndeps)
+        if ndeps:
+            ctx.nontrivial(dict(model=m, kind='init_order'), sample=dict(model=m, sequence=[str(x) for x in seq][:12], dependencies=ndeps))
+
+
+
+
 CAMPAIGNS = {
     'equations': dict(fn=camp_equations, shards=dict(quick=16, thorough=16)),
     'regen': dict(fn=camp_regen, shards=dict(quick=2, thorough=16)),
     'stale': dict(fn=camp_stale, shards=dict(quick=10, thorough=20)),
+    'init_order': dict(fn=camp_init_order, shards=dict(quick=1, thorough=1)),
 }
 
 
